@@ -155,6 +155,41 @@ def searchTable (t : List Item) (ip : Nat) : Bool :=
 def search (singles : List Nat) (t : List Item) (ip : Nat) : Bool :=
   if singles.contains ip then true else searchTable t ip
 
+/-! `IPTable` (bfe_util/ipdict/iptable.go): a mutex-protected pointer to the current `IPItems`.
+      Update(items): t.ipItems = items                      -- unconditional, also for nil and for an equal Version
+      Version():     "" if t.ipItems == nil else t.ipItems.Version
+      Search(ip):    false if t.ipItems == nil or ip.To16() == nil, else the search above -/
+
+/-- an `IPItems` after `Sort()`: the single-address set, the pair table, the version string -/
+structure IPItemsM where
+  singles : List Nat
+  table : List Item
+  version : String
+
+/-- `IPTable.ipItems` (`none` = nil) -/
+abbrev IPTableM := Option IPItemsM
+
+/-- `IPTable.Update` -/
+def IPTableM.update (_t : IPTableM) (items : Option IPItemsM) : IPTableM := items
+
+/-- `IPTable.Version` -/
+def IPTableM.version : IPTableM → String
+  | none => ""
+  | some it => it.version
+
+/-- `IPTable.Search`; `ip16 = none` stands for `srcIP.To16() == nil` -/
+def IPTableM.search (t : IPTableM) (ip16 : Option Nat) : Bool :=
+  match t, ip16 with
+  | some it, some v => BfeVerif.C19.search it.singles it.table v
+  | _, _ => false
+
+/-- a whole history of `Update` calls -/
+def IPTableM.updates (t : IPTableM) (hist : List (Option IPItemsM)) : IPTableM := hist.foldl IPTableM.update t
+
+/-- the version gate of `txt_load.CheckAndLoad(curVersion)`: a file whose (non-empty) version equals the version in
+    service is not loaded (`ErrNoNeedUpdate`) -/
+def needLoad (cur new : String) : Bool := !(new == cur && new != "")
+
 /-! Go's insertion sort with `Less(i,j) = start_i >= start_j`: the element moves left while it is `>=` its left
     neighbour, i.e. it lands in front of the first element whose start is `<=` its own. -/
 def insDesc (x : Item) : List Item → List Item
